@@ -271,6 +271,25 @@ theorem predOK_strTest (d : Doc) (cfg : ECfg) (name : String) (hn : name ∈ str
       spec_strTest d c name hn v hv lit]
     rfl
 
+/-- **`name(S, T)` for `name ∈ {contains, starts-with, ends-with}` with a string or a node list in
+EITHER position** (after the repair of `containsFunc`/`startwithFunc`/`endwithFunc`: the second
+argument is read like the first): a boolean on both sides, the same one — the test on the two
+string-values — whenever each argument evaluates to the same string or node list on both sides -/
+theorem predOK_strTest2 (d : Doc) (cfg : ECfg) (name : String) (hn : name ∈ strTests) (pfx : String)
+    (pl1 pl2 : Plan) (a b : Ast) (c : Spec.Ctx) (h1 : StrArgOK (F := F) d cfg pl1 a c)
+    (h2 : StrArgOK (F := F) d cfg pl2 b c) :
+    PredOK (F := F) d cfg (.func name .nil (.pcons pl1 (.pcons pl2 .pnil)))
+      (.call name pfx (.acons a (.acons b .anil))) c := by
+  obtain ⟨v, g, hv, hE, hS⟩ := h1
+  obtain ⟨w, g', hw, hE', hS'⟩ := h2
+  obtain ⟨m1, m2⟩ := StringFns.fn_strtest_strlike_spec (F := F) d cfg .nil c.node none c name hn v w hv hw
+  refine ⟨.bool (StringFns.strTestOf name (Spec.toStr d v) (Spec.toStr d w)),
+    .bool (StringFns.strTestOf name (Spec.toStr d v) (Spec.toStr d w)), none, ?_, ?_, trivial, trivial, rfl⟩
+  · rw [evalP_func2 d cfg name pl1 pl2 c.node (strTests_not_nameFn hn), hE, hE']
+    exact m1
+  · rw [eval_call2 d name pfx a b c v w g g' hS hS', m2]
+    rfl
+
 /-! ## `count(P) op n`, `n op count(P)` -/
 
 theorem evalP_count (d : Doc) (cfg : ECfg) (pl : Plan) (c : Ref) (ns : List Ref)
@@ -331,6 +350,20 @@ theorem predOK_countL (d : Doc) (cfg : ECfg) (op : String) (hop : op ∈ cmpOps)
   · exact evalP_logical d cfg op cop hcop _ _ _ _ _ _ (evalP_constNum d cfg lex _)
       (evalP_count d cfg pl c.node ns hE) (Theorems.C07.cell_numNum d cop _ _)
   · rw [eval_cmp d op cop hcop (.num lex) _ c _ _ (eval_num d lex c) (eval_count d pfx p c ns g hS)]
+    rfl
+
+/-- **`not(count(P))`** (after the repair of `notFunc`, which used to answer `false` to every
+number): a boolean on both sides, the same one — `count(P) = 0` -/
+theorem predOK_notCount (d : Doc) (cfg : ECfg) (pfx pfx' : String) (pl : Plan) (p : Ast)
+    (c : Spec.Ctx) (h : SeqOK (F := F) d cfg pl p c) :
+    PredOK (F := F) d cfg (.func "not" .nil (.pcons (.func "count" .nil (.pcons pl .pnil)) .pnil))
+      (.call "not" pfx (.acons (.call "count" pfx' (.acons p .anil)) .anil)) c := by
+  obtain ⟨out, ns, g, _, _, hE, hS⟩ := h
+  refine ⟨.bool (!Spec.toBool (F := F) (.num (ofNat ns.length))),
+    .bool (!Spec.toBool (F := F) (.num (ofNat ns.length))), none, ?_, ?_, trivial, trivial, rfl⟩
+  · rw [evalP_not, evalP_count d cfg pl c.node ns hE]
+    exact callFn_not_num d cfg c.node _
+  · rw [eval_not d pfx _ c _ (eval_count d pfx' p c ns g hS)]
     rfl
 
 end XPathV.PredSem2
